@@ -32,7 +32,8 @@ def print_expr(e, name, top=True):
     """fully parenthesised below the top level, so that python's reading is unambiguous"""
     op = e[0]
     if op == "pow":
-        return print_expr(e[1], name, False) + "**" + e[2][1]
+        b = print_expr(e[1], name, False)
+        return ("(" + b + ")" if e[1][0] == "pow" else b) + "**" + e[2][1]
     if op in LISTCALLS:
         return op + "([" + ", ".join(print_expr(t, name, True) for t in e[1:]) + "])"
     if op in CALLS:
